@@ -750,3 +750,7 @@ def run(repo: Repo, rep: Report, tier: str) -> None:
 
     # a char / char[n] member occupies one byte per character whatever the character: the declared size is what is written
     text_array_fold_rule(repo, rep, "C04.R21")
+    from .c11 import union_write_fold_rule
+
+    # a union is dumped as exactly its declared size: the largest member plus zero fill
+    union_write_fold_rule(repo, rep, "C04.R22")
